@@ -42,6 +42,103 @@ RE_DOT = re.compile(r"\." + TRIV + r"(?=\(|try\b|\{)")
 RE_QA = re.compile(r"(\+|-|\||~|\*|/|%|&|<<|>>)" + TRIV + r"(?==(?!=))")
 
 
+
+# ---- recovery stress: every looping construct, unterminated, in every embedding position, followed by every
+# token of every recovery set (derived from the grammar: expr.rs / stmt.rs) ------------------------------------
+# each looping grammar function with the prefixes of its body at which the loop can be entered / resumed
+LOOP_BODIES = {
+    "struct decl (parse_struct_decl)": ["struct", "struct {", "struct { a", "struct { a:", "struct { a: i32", "struct { a: i32,",
+                                        "struct { a: i32, b"],
+    "enum decl (parse_enum_decl)": ["enum", "enum {", "enum { A", "enum { A:", "enum { A: i32", "enum { A |", "enum { A | 1",
+                                    "enum { A,", "enum { A: i32 | 1,"],
+    "lambda params (parse_lambda)": ["(a:", "(a: i32", "(a: i32,", "(comptime a", "(comptime a: i32", "(a: ...", "(a: ...i32",
+                                     "(a: i32) ->", "(a: i32) -> i32", "() ->", "(a,"],
+    "call args (parse_post_operators)": ["f(", "f(a", "f(a,", "f(a, b"],
+    "directive args (parse_directive)": ["#d", "#d(", "#d(a", "#d(a,", "#"],
+    "old import (parse_var_ref)": ['import "x"', 'mod "x"', 'import "x'],
+    "block (parse_block)": ["{", "{ a", "{ a;", "{ x :=", "{ x := 1", "{ x :: 1;", "{ return", "{ break `l", "{ defer a",
+                            "`l: {", "`l:", "`l"],
+    "switch (parse_switch)": ["switch", "switch x", "switch x {", "switch x { A", "switch x { A =>", "switch x { A => 1",
+                              "switch x { A => 1,", "switch x { .A", "switch x { .A =>", "switch x { _ =>", "switch a in x {",
+                              "switch a in", "switch a in x { T =>"],
+    "struct literal (parse_struct_literal)": ["S.{", "S.{ a", "S.{ a =", "S.{ a = 1", "S.{ a = 1,", ".{", ".{ a", ".{ a = 1,",
+                                               "S {", "S { a = 1", "S { a : 1,", "a.b {"],
+    "array literal (parse_array_literal)": [".[", ".[1", ".[1,", "T.[", "T.[1,", "T[a,", "T[a, b", "[3]T{", "[3]T{1,", "[]T.[1,"],
+    "array decl / index": ["[", "[3", "[3]", "a[", "a[1", "a[b +"],
+    "paren / cast": ["(", "(a", "(a +", "T.(", "T.(a", "T.(a,"],
+    "if / while / loop": ["if", "if a", "if a {", "if a {}", "if a {} else", "if a {} else if", "while", "while a", "while a {",
+                          "loop", "loop {", "`l: while a", "`l: loop"],
+    "string / char": ['"abc', "'a", '"a\\'],
+    "prefix / type forms": ["comptime", "distinct", "?", "^", "^mut", "mut", "mut rawptr", "-", "!", "a !", "a as", "a.", "a.try",
+                            "a +", "a + b *"],
+}
+# every position that hands a recovery set (or an expected closing token) down to the expression / type it contains
+EMBEDDINGS = {
+    "top-level value": "x :: ",
+    "type annotation (DEF_SET)": "x : ",
+    "local value": "{ x := ",
+    "lambda parameter type (PARAM_RS)": "f :: (p: ",
+    "second lambda parameter type": "f :: (p: i32, q: ",
+    "lambda return type (+LBrace)": "f :: () -> ",
+    "if condition (+LBrace, If, Else)": "if ",
+    "else-if condition": "if a {} else if ",
+    "while condition (+LBrace)": "while ",
+    "switch scrutinee (+LBrace)": "switch ",
+    "switch arm variant (+FatArrow)": "switch x { ",
+    "switch arm body": "switch x { A => ",
+    "cast operand (+Comma, RParen)": "T.(",
+    "call argument": "f(",
+    "second call argument": "f(a, ",
+    "directive argument": "#d(",
+    "index": "a[",
+    "struct literal member value (+Comma, RBrace)": "S.{ a = ",
+    "array literal item": ".[",
+    "typed array literal item": "T.[1, ",
+    "struct decl field type (+Comma, RBrace)": "struct { a: ",
+    "enum variant type (+Comma, RBrace)": "enum { A: ",
+    "enum discriminant": "enum { A | ",
+    "array size": "[",
+    "array element type (+LBrace)": "[3]",
+    "paren": "(",
+    "block statement": "{ ",
+    "prefix operand": "-",
+    "ref operand": "^",
+    "binary rhs": "a + ",
+    "distinct / optional / comptime": "distinct ",
+    "return value": "{ return ",
+    "assignment value": "{ a = ",
+    "repl expression": "",
+}
+# every token of every recovery set (DEFAULT, PARAM_RS, DEF_SET, {LBrace}, {If, Else}, {Comma, RParen}, {Comma, RBrace},
+# {FatArrow}, {Arrow, LBrace, Hash}, {Comma, RParen, Ellipsis}) plus closers, EOF and an ordinary token
+FOLLOWS = [")", ",", "...", "=", ":", "{", "}", ";", "if", "else", "=>", "->", "#", "]", "|", "", "a", "extern", "in"]
+TAILS = ["", " b ;"]
+
+
+def recovery_stress(rng, n_two_level, tails=TAILS):
+    out = []
+    bodies = [(k, b) for k, bs in LOOP_BODIES.items() for b in bs]
+    embs = list(EMBEDDINGS.items())
+    for (ek, e) in embs:
+        for (bk, b) in bodies:
+            for fo in FOLLOWS:
+                for tl in tails:
+                    if fo == "" and tl:
+                        continue
+                    out.append(e + b + (" " + fo if fo else "") + tl)
+    # two embedding levels (recovery sets accumulate by union), sampled
+    for _ in range(n_two_level):
+        (e1k, e1) = rng.choice(embs)
+        (e2k, e2) = rng.choice(embs)
+        (bk, b) = rng.choice(bodies)
+        fo = rng.choice(FOLLOWS)
+        fo2 = rng.choice(FOLLOWS)
+        out.append(e1 + e2 + b + (" " + fo if fo else "") + (" " + fo2 if fo2 and rng.chance(1, 2) else ""))
+    return out
+
+
+RECOVERY_SET12 = ["a", "(", ")", "{", ":", "=", ",", "struct", "enum", "switch", "if", "else"]
+
 def glue(text):
     """remove exactly the trivia that the known finding is about"""
     t = RE_DOT.sub(".", text)
@@ -162,6 +259,13 @@ def run(tier, seed):
         for i in range(10000 if quick else 200000):
             n = r1.range(maxlen + 1, 8)
             cases.append(("sampled %d..8 tokens (reduced set)" % (maxlen + 1), render([r1.choice(REDUCED) for _ in range(n)], "g")))
+        # 1b. recovery stress (see LOOP_BODIES / EMBEDDINGS / FOLLOWS) and a second exhaustive enumeration over a
+        # keyword-bearing token set (shortest trigger of a decl loop inside a condition: `if struct { else`)
+        for t in recovery_stress(rng.fork("stress"), 20000 if quick else 300000, [""] if quick else TAILS):
+            cases.append(("recovery stress: loop body x embedding x recovery-set token", t))
+        for n in range(1, 5):
+            for t in itertools.product(RECOVERY_SET12, repeat=n):
+                cases.append(("exhaustive<=4 over {a ( ) { : = , struct enum switch if else}", render(t, "g")))
         # 2. soups over the full vocabulary, all trivia styles (these re-derive finding C23-1)
         r2 = rng.fork("soup")
         for i in range(9000 if quick else 100000):
@@ -197,6 +301,9 @@ def run(tier, seed):
             # events/tokens/tree dump (Sink correspondence) for everything but the bulk of the thorough tier's
             # length-5 enumeration and 5..8 sampling, which only go through the direct oracle
             bulk = (not quick) and (seen[t].startswith("sampled") or (seen[t].startswith("exhaustive") and len(t.split()) >= 5))
+            if seen[t].startswith("recovery stress"):
+                # the direct oracle sees every stress case; events/tokens/tree (Sink and grammar-model comparison) a sample
+                bulk = (int(C.sha(t), 16) % (8 if quick else 3)) != 0
             full = "t" if (len(t) <= 4096 and not bulk) else ""
             for m in ("S", "R"):
                 lines.append("%s%s %s" % (m, full, hx))
@@ -309,11 +416,19 @@ def run(tier, seed):
         g_in = []
         g_idx = []
         cap = 45000 if quick else 120000
+        stress_cap = 12000 if quick else 60000
+        n_stress = 0
         for k, ((stream, t, m, full), r) in enumerate(zip(meta, impl)):
             if not full or r is None or r.startswith("!") or len(g_in) >= cap:
                 continue
             if stream.startswith("exhaustive") and len(t.split()) >= 4:
                 continue            # the bulk of the enumeration is covered by the Sink stream and the oracle
+            hung_here = "PANIC-IN-PARSER:VERIF-NO-PROGRESS" in r
+            if stream.startswith("recovery stress") and not hung_here:
+                # every non-terminating case goes to the model; of the rest a deterministic sample
+                n_stress += 1
+                if n_stress > stress_cap and (k % 7) != 0:
+                    continue
             parts = r.split(" | ")
             if len(parts) < 3:
                 continue
